@@ -65,6 +65,11 @@ func isBulky(p pv) bool {
 	return p.tags == "huge" || p.name == "list-100k" || p.name == "string64k" || p.name == "bytes64k"
 }
 
+var (
+	cachedPool  []pv
+	cachedDirty bool
+)
+
 func armOperators(c *driver.Ctx) {
 	perX := c.Pick(6, 400) // right operands per (form, left operand); 400 >= pool size: all of them
 	npool := len(newPool())
@@ -80,7 +85,14 @@ func armOperators(c *driver.Ctx) {
 				continue
 			}
 			r := c.Rand()
-			pool := newPool()
+			// building the pool (10^5-element and 20000-deep members) costs more than the calls of one job:
+			// keep it between jobs unless a form that changes its operands, or an abandoned call, has used it
+			mutating := strings.Contains(form.name, "= ") && !strings.Contains(form.name, "== ") && !strings.Contains(form.name, "k = c") || strings.HasPrefix(form.name, "a(")
+			if cachedPool == nil || cachedDirty || mutating {
+				cachedPool = newPool()
+			}
+			cachedDirty = mutating
+			pool := cachedPool
 			// right operands: one of every type first (so that every type pair meets under every form in
 			// every run), then random others up to perX
 			perm := r.Perm(len(pool))
@@ -127,9 +139,10 @@ func armOperators(c *driver.Ctx) {
 				c.Count("operators_"+res.outcome, 1)
 				c.Distinct(fmt.Sprintf("op/%d/%s/%s/%s", fi, x.v.Type(), y.v.Type(), z.v.Type()))
 				judgeCall(c, "operator "+form.name, text, res, huge)
-				if res.outcome == "timeout" || strings.Contains(form.body, "= ") && strings.HasPrefix(form.body, "a") {
-					// abandoned goroutine may still use the values / the form mutates its operand: fresh values
-					pool = newPool()
+				if res.outcome == "timeout" {
+					// the abandoned goroutine may still use the values: fresh ones for everything that follows
+					cachedPool = newPool()
+					pool = cachedPool
 				}
 			}
 			if leaked.Load() >= 3 {
